@@ -46,7 +46,7 @@ m = {
          "kind_free_text": "explicit-state BFS over operation histories of the real object with a lock-step reference model, canonical-state deduplication, fix-point inside caps"},
         {"name": "P", "path": "rt/vrt.hpp", "serves_properties": [p for p in ids if p in PROPS and PROPS[p].get("engine") == "P"],
          "kind_free_text": "exhaustive enumeration of program families (grammars, option-parser shapes, generic-operation registry) times all inputs up to a bound, against a reference interpreter"},
-        {"name": "S", "path": "rt/sched/", "serves_properties": [p for p in ids if p in PROPS and PROPS[p].get("engine") == "S"],
+        {"name": "S", "path": "rt/sched/", "serves_properties": [p for p in ids if p in PROPS and PROPS[p].get("engine") == "S" or p == "C19"],
          "kind_free_text": "preemption-bounded stateless exploration of all schedules of real threads over hooked synchronisation points, with a vector-clock race detector"},
     ],
     "checks": checks,
